@@ -217,3 +217,21 @@ func verifB2I(b bool) int {
 	}
 	return 0
 }
+
+// Fault-injection sites (verifFault): the wrappers through which netpoll enters the kernel.
+const (
+	vfltNone = iota
+	vfltSocket
+	vfltSockopt
+	vfltConnect
+	vfltConnectSoError
+	vfltAccept
+	vfltEpollCreate
+	vfltEpollCtlAdd // + (op - EPOLL_CTL_ADD): add, del, mod in the kernel's numbering
+	vfltEpollCtlDel
+	vfltEpollCtlMod
+	vfltSendmsg
+	vfltWritev
+	vfltReadv
+	vfltCount
+)
